@@ -62,6 +62,12 @@ def schema_edits(spec):
             eds += [["set", tid, "required", False], ["regex", tid, "^" + c["name"] + "_\\d+$"]]
             for newname in ("yes", "null", "1", "it's"):
                 eds.append(["rename", tid, newname])
+    # one Check *instance* attached to two components (aliasing between components is invisible in a spec-per-component build)
+    tids = [t for t, _ in E._targets(spec)]
+    shared = {"k": "ne", "a": [-1], "kw": {"raise_warning": True, "ignore_na": False}}
+    for pair in (("level:k1", "level:k2"), ("col:a", "level:k2"), ("col:a", "index"), ("col:a", "col:c")):
+        if all(t in tids for t in pair):
+            eds.append(["sharecheck", list(pair), shared])
     eds += [["frame", "strict", True], ["frame", "strict", "filter"], ["frame", "ordered", True], ["frame", "coerce", True],
             ["frame", "name", "my schema"], ["frame", "name", NASTY], ["frame", "title", NASTY], ["frame", "description", NASTY],
             ["frame", "unique", "a"], ["frame", "unique", ["a"]], ["frame", "report_duplicates", "exclude_first"],
@@ -72,6 +78,15 @@ def schema_edits(spec):
 
 
 def apply_edit(spec, e):
+    if e[0] == "sharecheck":
+        s = copy.deepcopy(spec)
+        for tid in e[1]:
+            try:
+                t = E._get_target(s, tid)
+            except KeyError:
+                return None
+            t["checks"] = list(t["checks"]) + [dict(copy.deepcopy(e[2]), share="s1")]
+        return s
     if e[0] == "rename":
         s = copy.deepcopy(spec)
         try:
@@ -413,7 +428,7 @@ def run_case(case):
             if key.startswith("@"):
                 k2 = key[1:]
             else:
-                m = _minimise(base, comb, clause, key) if "concrete" not in case else comb
+                m = _minimise(base, comb, clause, key)   # also for replays: the signature is that of the minimised case
                 k2 = key + "|" + "+".join(_kinds(m))
             if (clause, k2) in seen:
                 continue
